@@ -3,6 +3,7 @@
 //! the repository's own test doubles, plus the harness-side bookkeeping the oracles need (which
 //! signers registered in which epoch, in which order certificates appeared).
 
+use mithril_cardano_node_chain::chain_observer::ChainObserver;
 use std::cell::{Cell, RefCell};
 use std::collections::{BTreeMap, BTreeSet};
 use std::path::{Path, PathBuf};
@@ -72,6 +73,13 @@ pub struct World {
     /// certificate hashes in order of first appearance in the store
     pub cert_order: RefCell<Vec<String>>,
     pub restarts: u32,
+    /// configuration variant the running node was started with (see `protocol_parameters_variant`)
+    pub cfg_variant: u8,
+    /// reference model of the write-once epoch settings: settings epoch → protocol parameters.
+    /// Written (only when absent) for c-1, c, c+1 when a node starts at chain epoch c, and for
+    /// c+1 when an idle node runs its epoch initialisation at chain epoch c. A certificate of
+    /// epoch e carries the parameters recorded for e-1.
+    pub ref_settings: RefCell<BTreeMap<u64, ProtocolParameters>>,
     /// (signer, entity) pairs for which the aggregator has acknowledged a signature (201 / 202):
     /// an honest signer signs each beacon once and does not send it again once acknowledged
     pub acknowledged: RefCell<BTreeSet<(usize, String)>>,
@@ -94,6 +102,16 @@ pub enum Kind {
     /// + Cardano stake distribution: the only entity whose beacon epoch (e) differs from the epoch
     /// in which it is signed (e+1)
     MsdCsd,
+}
+
+/// The protocol parameters of configuration variant `v`. The variants differ only in `k`: single
+/// signatures do not depend on `k`, so honest signatures stay valid whichever variant is in force,
+/// and a certificate sealed with the parameters of the wrong epoch is a sealed certificate (a
+/// visible safety violation), not mere lack of progress.
+pub fn protocol_parameters_variant(v: u8) -> ProtocolParameters {
+    let mut p = protocol_parameters();
+    p.k -= (v % 2) as u64;
+    p
 }
 
 pub fn configuration(dir: &Path, kind: Kind) -> ServeCommandConfiguration {
@@ -206,6 +224,8 @@ impl World {
             registered_in_epoch: RefCell::new(BTreeMap::new()),
             cert_order: RefCell::new(vec![]),
             restarts: 0,
+            cfg_variant: 0,
+            ref_settings: RefCell::new(BTreeMap::from([(0, protocol_parameters()), (1, protocol_parameters()), (2, protocol_parameters())])),
             acknowledged: RefCell::new(BTreeSet::new()),
             ctl,
         };
@@ -213,7 +233,8 @@ impl World {
         // they had registered during epochs -1 and 0: they sign in epochs 1 and 2.
         let all: BTreeSet<usize> = (0..nsigners).collect();
         w.registered_in_epoch.borrow_mut().insert(u64::MAX, all.clone()); // "epoch -1"
-        w.registered_in_epoch.borrow_mut().insert(0, all);
+        w.registered_in_epoch.borrow_mut().insert(0, all.clone());
+        w.outside.chain_observer.set_signers(w.signers_with_stake_in(&all, 1)).await;
         w.update_digester().await;
         w
     }
@@ -222,6 +243,11 @@ impl World {
     /// database directory: what a process restart does.
     pub async fn restart(&mut self) {
         let Node { deps, runtime, routes, open_messages, ticker, metrics } = build_node(&self.config, &self.outside).await;
+        // start-up fills the epoch settings of the three working epochs that are still absent
+        let c = self.outside.chain_observer.get_current_epoch().await.ok().flatten().map(|e| *e).unwrap_or(0);
+        for e in [c.saturating_sub(1), c, c + 1] {
+            self.ref_settings.borrow_mut().entry(e).or_insert_with(|| protocol_parameters_variant(self.cfg_variant));
+        }
         self.deps = deps;
         self.last_state.set(runtime.state_label());
         *self.runtime.borrow_mut() = Some(runtime);
@@ -231,6 +257,22 @@ impl World {
         self.metrics = metrics;
         self.ctl.node_restarted();
         self.restarts += 1;
+    }
+
+    /// The operator restarts the node with the other configuration variant (protocol parameters).
+    pub async fn reconfigure(&mut self) {
+        self.cfg_variant = (self.cfg_variant + 1) % 2;
+        self.config.protocol_parameters = Some(protocol_parameters_variant(self.cfg_variant));
+        self.restart().await;
+    }
+
+    /// protocol parameters in force for certificates of `epoch` according to the reference model
+    /// (None: the model has no record, nothing is claimed)
+    pub fn reference_parameters(&self, epoch: u64) -> Option<ProtocolParameters> {
+        if epoch == 0 {
+            return None;
+        }
+        self.ref_settings.borrow().get(&(epoch - 1)).cloned()
     }
 
     pub async fn time_point(&self) -> TimePoint {
@@ -274,6 +316,12 @@ impl World {
         let Some(mut rt) = self.runtime.borrow_mut().take() else {
             return Err("busy: a cycle is already running".to_string());
         };
+        if self.last_state.get() == "idle" {
+            // an idle node runs the epoch initialisation tasks of the chain's epoch (once per node
+            // and epoch; the record is write-once, so repeating it here changes nothing)
+            let c = self.outside.chain_observer.get_current_epoch().await.ok().flatten().map(|e| *e).unwrap_or(0);
+            self.ref_settings.borrow_mut().entry(c + 1).or_insert_with(|| protocol_parameters_variant(self.cfg_variant));
+        }
         let r = rt.cycle().await.map_err(|e| format!("{e:?}"));
         self.last_state.set(rt.state_label());
         *self.runtime.borrow_mut() = Some(rt);
@@ -287,7 +335,50 @@ impl World {
 
     pub async fn next_epoch(&self) {
         self.outside.chain_observer.next_epoch().await;
+        // the chain's stake distribution changes with every epoch (see `stake_in`)
+        let e = *self.time_point().await.epoch;
+        let all: BTreeSet<usize> = (0..self.fixture.signers_with_stake().len()).collect();
+        self.outside.chain_observer.set_signers(self.signers_with_stake_in(&all, e)).await;
         self.update_digester().await;
+    }
+
+    /// Stake of fixture signer `i` in the chain's stake distribution during `chain_epoch`
+    /// (`u64::MAX` stands for "epoch -1"). The fixture's stake before epoch 1 (what
+    /// `init_state_from_fixture_for_genesis` stores), then a different value in every epoch so
+    /// that a stake distribution or aggregate key taken from the wrong epoch is visible. Every
+    /// stake is multiplied by the epoch number: the stake *shares*, hence every lottery, stay
+    /// exactly the same, so honest signatures remain valid under any epoch's distribution and a
+    /// mix-up of epochs shows as a sealed certificate with the wrong aggregate key (total stake
+    /// and Merkle leaves differ) rather than as mere lack of progress.
+    pub fn stake_in(&self, i: usize, chain_epoch: u64) -> u64 {
+        let base = self.fixture.signers_with_stake()[i].stake;
+        if chain_epoch == u64::MAX || chain_epoch == 0 {
+            return base;
+        }
+        base * (chain_epoch + 1)
+    }
+
+    /// the signers `idx` with the stake the chain showed during `chain_epoch`
+    pub fn signers_with_stake_in(&self, idx: &BTreeSet<usize>, chain_epoch: u64) -> Vec<SignerWithStake> {
+        let all = self.fixture.signers_with_stake();
+        idx.iter()
+            .map(|i| {
+                let mut s = all[*i].clone();
+                s.stake = self.stake_in(*i, chain_epoch);
+                s
+            })
+            .collect()
+    }
+
+    /// the chain epoch whose registrations and stake distribution are in force in `signing_epoch`
+    pub fn registration_epoch_of(signing_epoch: u64) -> Option<u64> {
+        if signing_epoch >= 2 {
+            Some(signing_epoch - 2)
+        } else if signing_epoch == 1 {
+            Some(u64::MAX)
+        } else {
+            None
+        }
     }
 
     pub async fn next_immutable(&self) {
@@ -298,13 +389,14 @@ impl World {
     /// epoch → indices of the fixture signers that sign in that epoch (reference offset rule:
     /// keys registered during epoch e are recorded for e+1 and sign in e+2)
     pub fn reference_signers(&self, epoch: u64) -> BTreeSet<usize> {
-        let reg_epoch = if epoch >= 2 { epoch - 2 } else if epoch == 1 { u64::MAX } else { return BTreeSet::new() };
+        let Some(reg_epoch) = World::registration_epoch_of(epoch) else { return BTreeSet::new() };
         self.registered_in_epoch.borrow().get(&reg_epoch).cloned().unwrap_or_default()
     }
 
-    pub fn signers_with_stake_of(&self, idx: &BTreeSet<usize>) -> Vec<SignerWithStake> {
-        let all = self.fixture.signers_with_stake();
-        idx.iter().map(|i| all[*i].clone()).collect()
+    /// the signers `idx` with the stake in force when they sign in `signing_epoch`: the stake the
+    /// chain showed during the epoch they registered in (two epochs earlier)
+    pub fn signers_with_stake_of(&self, idx: &BTreeSet<usize>, signing_epoch: u64) -> Vec<SignerWithStake> {
+        self.signers_with_stake_in(idx, World::registration_epoch_of(signing_epoch).unwrap_or(u64::MAX))
     }
 
     pub fn reference_signer_builder(&self, epoch: u64) -> Option<SignerBuilder> {
@@ -312,7 +404,16 @@ impl World {
         if s.is_empty() {
             return None;
         }
-        SignerBuilder::new(&self.signers_with_stake_of(&s), &protocol_parameters()).ok()
+        SignerBuilder::new(&self.signers_with_stake_of(&s, epoch), &protocol_parameters()).ok()
+    }
+
+    /// the fixture initializer of signer `i` (same keys) carrying the stake in force in `signing_epoch`
+    pub fn initializer_for(&self, i: usize, signing_epoch: u64) -> mithril_common::crypto_helper::ProtocolInitializer {
+        let sf = &self.fixture.signers_fixture()[i];
+        let stake = self.stake_in(i, World::registration_epoch_of(signing_epoch).unwrap_or(u64::MAX));
+        let mut v = serde_json::to_value(&sf.protocol_initializer).expect("initializer to json");
+        v["stm_initializer"]["stake"] = serde_json::json!(stake);
+        serde_json::from_value(v).expect("initializer from json")
     }
 
     /// signer `i` registers through the aggregator's registerer, as the HTTP route does
@@ -344,7 +445,7 @@ impl World {
         let builder = self.reference_signer_builder(epoch)?;
         let sf = &self.fixture.signers_fixture()[i];
         let signer = builder
-            .restore_signer_from_initializer(sf.signer_with_stake.party_id.clone(), sf.protocol_initializer.clone())
+            .restore_signer_from_initializer(sf.signer_with_stake.party_id.clone(), self.initializer_for(i, epoch))
             .ok()?;
         signer.sign(message).ok().flatten()
     }
